@@ -121,7 +121,19 @@ impl TxWal {
         let file = OpenOptions::new().create(true).append(true).open(&path)?;
 
         // Get current file size
-        let current_size = file.metadata().map(|m| m.len()).unwrap_or(0);
+        let mut current_size = file.metadata().map(|m| m.len()).unwrap_or(0);
+
+        // A crash can leave a partially written record at the end of the file. Replay
+        // stops there, but anything appended behind it would be unreadable (or make replay
+        // fail with a checksum mismatch), so cut the torn tail off before appending.
+        if current_size > 0 {
+            let valid = Self::complete_prefix_len(&path, current_size)?;
+            if valid < current_size {
+                file.set_len(valid)?;
+                file.sync_all()?;
+                current_size = valid;
+            }
+        }
 
         let entry_count = Self::count_entries(&path)?;
 
@@ -132,6 +144,29 @@ impl TxWal {
             current_size,
             config,
         })
+    }
+
+    /// Length of the longest prefix of the file that consists of complete records
+    /// (`[length][checksum][payload]`). Only the framing is inspected; checksums and
+    /// payloads are validated by `replay`.
+    fn complete_prefix_len(path: &Path, file_len: u64) -> io::Result<u64> {
+        let mut reader = BufReader::new(File::open(path)?);
+        let mut pos = 0u64;
+        loop {
+            let mut header = [0u8; 8];
+            match reader.read_exact(&mut header) {
+                Ok(()) => {},
+                Err(e) if e.kind() == io::ErrorKind::UnexpectedEof => break,
+                Err(e) => return Err(e),
+            }
+            let len = u32::from_le_bytes([header[0], header[1], header[2], header[3]]);
+            if pos + 8 + u64::from(len) > file_len {
+                break; // payload cut short
+            }
+            reader.seek_relative(i64::from(len))?;
+            pos += 8 + u64::from(len);
+        }
+        Ok(pos)
     }
 
     /// Count entries in an existing WAL file.
